@@ -94,7 +94,9 @@ def programs(draw, max_modules=3, max_tasks=4, kinds=KINDS_BASIC, patterns=True,
                 if flavour in (2, 3, 4):
                     p['default'] = {'v': draw(_pv())}
                     p['dpdv'] = draw(st.booleans())
-                if flavour == 5 and k == 'path':
+                if k == 'path' and flavour >= 5:
+                    # a dtype=Path parameter (its values are path strings, often with a {PLACEHOLDER})
+                    flavour = 5
                     p['dtype'] = 'Path'
                 if flavour == 6 and objects:
                     p['object'] = 'Ob' if OB_MAPPING_ARGS['on'] else draw(st.sampled_from(['Oa', 'Ob']))
@@ -251,7 +253,10 @@ def value_for(draw, plist, nested_ok=True):
                                                    max_size=3))
         return {'__object__': 'Ob', 'args': [draw(karg)], 'kwargs': kw}
     if any(p.get('dtype') == 'Path' for p in plist):
-        return draw(st.sampled_from(['/data/x', 'rel/y', '{DATA}/z', '.']))
+        pool = ['/data/x', 'rel/y', '{DATA}/z', '.']
+        if VALUE_STRATEGY.get('current') is param_values_cfgdir:
+            pool += ['{CFGDIR}/p', '{CFGDIR}/p']   # differs between the two configurations of a C02 pair
+        return draw(st.sampled_from(pool))
     dts = {p['dtype'] for p in plist if p.get('dtype')}
     if dts:
         dt = sorted(dts)[0]
